@@ -114,7 +114,8 @@ CHECKS = {
              '(C15_postprocessed_pair_differs_exactly; for any masks and ignore lists: C15_reconstruct_differs_exactly). The '
              'reconstruction model is compared byte-for-byte with the files the real assertions write; an oracle checks the '
              'same statement on the files.',
-        note='partial: the different-number-of-lines path of the reconstruction is covered by correspondence and oracle only; '
+        note='partial: for different numbers of kept lines the statement is refuted on the model (C15_different_line_counts_refuted = known finding '
+             'c15-postprocessed-pair-different-line-counts) and that path is otherwise covered by correspondence and oracle only; '
              'file-system behaviour is observed (tmp dir listing, watched data dir), not modelled.',
         technique='Coq proof (binary_offset_exact, artefact-set theorems, post-processed pair differs exactly at the unexcused differences) + extracted-model correspondence on '
                   'written files + property oracle',
